@@ -16,7 +16,14 @@ Decisions taken from the property text and the code (documented in notes/finding
 * "None missing" is claimed for SIMPLE rings: junction overhangs pairwise distinct and none of
   them its own reverse complement (a palindromic overhang also pairs with itself, so the designed
   order is no longer forced; the code never attaches a flipped fragment to a palindromic end).
-  Designed assemblies (the property's quantifier) have only simple rings.
+* What the code returns EXACTLY is the class `OneLap`: rings that, started at a fragment in its
+  supplied orientation, do not come back to that fragment's forward overhang before they close
+  (Props/C09 `ligate_exact`).  A designed assembly (`designed`, the property's quantifier) also has
+  rings that are NOT simple — with two alternatives in every slot the chain can lap the design
+  twice (a strict 2 × 2 design has 6 rings, 4 of them simple) — but on a designed pool the one-lap
+  rings are precisely the simple rings (`designed_oneLap_simple`), i.e. the designed plasmids; the
+  multi-lap concatemers are rings of this spec that the code does not return and that the judge
+  forbids on designed pools.
 -/
 namespace PolyVerif.Spec.Rings
 open PolyVerif PolyVerif.Ligate PolyVerif.Transform
@@ -77,6 +84,31 @@ def isDna (s : Str) : Bool := s.all fun c => c == 'A' || c == 'C' || c == 'G' ||
 def dnaFragment (f : Fragment) : Bool := isDna f.seq && isDna f.fwd && isDna f.rev
 
 def dnaPool (pool : List Fragment) : Bool := pool.all dnaFragment
+
+/-- the class of rings the code closes: the first fragment in its supplied orientation, no later
+junction overhang equal to the first one ("first return to the seed's forward overhang"), flipped
+fragments attached only at non-self-complementary overhangs -/
+def OneLap (f : Fragment) (suf : List Oriented) : Prop :=
+  (∀ o ∈ suf, o.junction ≠ f.fwd) ∧ (∀ o ∈ suf, o.flipped = true → revComp o.junction ≠ o.junction)
+
+/-! ### designed assemblies (the property's quantifier), decided on the pool -/
+
+/-- both orientations of every pool fragment -/
+def orientations (pool : List Fragment) : List Oriented := pool.flatMap fun f => [⟨f, false⟩, ⟨f, true⟩]
+
+/-- something can be ligated to the reverse end of `o` (otherwise `o` is a dead end: a decoy) -/
+def live (pool : List Fragment) (o : Oriented) : Bool :=
+  (orientations pool).any fun o' => o'.get.fwd == o.get.rev
+
+/-- A designed assembly: upper-case ACGT; no overhang (on either strand) is its own reverse
+complement; and among the oriented fragments that are not dead ends the forward overhang determines the
+reverse overhang — the alternatives of a slot share both junction overhangs, different slots have
+different ones, a fragment fits in one place and one orientation only, decoys dead-end. -/
+def designed (pool : List Fragment) : Bool :=
+  dnaPool pool &&
+  ((orientations pool).all fun o => revComp o.junction != o.junction) &&
+  ((orientations pool).all fun a => (orientations pool).all fun b =>
+    !(live pool a && live pool b && a.get.fwd == b.get.fwd) || a.get.rev == b.get.rev)
 
 /-! ### enumeration (used by the judge; brute force for small pools, graph walk otherwise) -/
 
